@@ -296,7 +296,7 @@ MANIFEST_HEAD = {
         "guard": "verif",
         "enable": "go test -tags verif (harness files are injected with -overlay/-modfile by bin/check; /repo itself is not edited)",
         "baseline_off_cmd": "cd /repo && go test -mod=mod -vet=off -count=1 -timeout 25m ./...",
-        "source_commits": ["2e56636"],
+        "source_commits": ["2e56636", "122c079"],
         "add_only": True,
     },
     "engines": [
